@@ -337,6 +337,7 @@ structure HostCodec.Lawful (C : HostCodec) : Prop where
   alpha6 : ∀ s a, C.parse6 s = some a → ∀ c ∈ s, c ∈ ipv6Alphabet
   colon6 : ∀ a, a < 2 ^ 128 → ':' ∈ C.show6 a
   disjoint : ∀ s a, C.parse4 s = some a → C.parse6 s = none
+  nonempty : C.parse4 [] = none ∧ C.parse6 [] = none
 
 def Host.Valid : Host → Prop
   | .v4 a => a < 2 ^ 32
@@ -1492,6 +1493,279 @@ theorem socketAddr_accepts_iff (C : HostCodec) (hC : C.Lawful) (s : Str) (a : So
   | v4 a => obtain ⟨x, y⟩ := h4 a rfl; simp [x, y]
   | v6 a => obtain ⟨x, y, z⟩ := h6 a rfl; simp [x, y, z]
 
+/-! ### every spelling of a TXT payload is accepted -/
+
+theorem trimStart_ws {w : Str} (hw : Ws w) (s : Str) : trimStart (w ++ s) = trimStart s := by
+  induction w with
+  | nil => rfl
+  | cons c cs ih =>
+    unfold trimStart at ih ⊢
+    rw [List.cons_append, List.dropWhile_cons_of_pos (hw c (by simp))]
+    exact ih (fun x hx => hw x (by simp [hx]))
+
+theorem trimEnd_ws {w : Str} (hw : Ws w) (s : Str) : trimEnd (s ++ w) = trimEnd s := by
+  unfold trimEnd
+  rw [List.reverse_append, trimStart_ws (fun c hc => hw c (by simpa using hc))]
+
+/-- first and last character are not white space -/
+def Tight (m : Str) : Prop :=
+  (∃ c t, m = c :: t ∧ isWhitespace c = false) ∧ (∃ t d, m = t ++ [d] ∧ isWhitespace d = false)
+
+theorem trimStart_head {c : Char} {t : Str} (h : isWhitespace c = false) : trimStart (c :: t) = c :: t := by
+  unfold trimStart; rw [List.dropWhile_cons_of_neg (by simp [h])]
+
+theorem trimEnd_last {t : Str} {d : Char} (h : isWhitespace d = false) : trimEnd (t ++ [d]) = t ++ [d] := by
+  unfold trimEnd
+  rw [List.reverse_append]
+  simp only [List.reverse_cons, List.reverse_nil, List.nil_append, List.cons_append]
+  rw [trimStart_head h]
+  simp
+
+theorem trim_tight {w1 w2 m : Str} (h1 : Ws w1) (h2 : Ws w2) (hm : Tight m) : trim (w1 ++ m ++ w2) = m := by
+  obtain ⟨⟨c, t, e1, hc⟩, ⟨t', d, e2, hd⟩⟩ := hm
+  unfold trim
+  rw [List.append_assoc, trimStart_ws h1]
+  have : trimStart (m ++ w2) = m ++ w2 := by rw [e1, List.cons_append]; exact trimStart_head hc
+  rw [this, trimEnd_ws h2, e2, trimEnd_last hd]
+
+theorem trim_ws_only {w : Str} (h : Ws w) : trim w = [] := by
+  have : trimStart w = [] := by
+    have := trimStart_ws h []
+    simpa [trimStart] using this
+  unfold trim; rw [this]; rfl
+
+theorem tight_of_noWs {m : Str} (h : NoWs m) (hne : m ≠ []) : Tight m := by
+  constructor
+  · cases m with
+    | nil => exact absurd rfl hne
+    | cons c t => exact ⟨c, t, rfl, h c (by simp)⟩
+  · rcases List.eq_nil_or_concat m with rfl | ⟨t, d, rfl⟩
+    · exact absurd rfl hne
+    · exact ⟨t, d, by simp, h d (by simp)⟩
+
+theorem tight_sandwich {a b : Str} (x : Str) (ha : Tight a) (hb : Tight b) : Tight (a ++ x ++ b) := by
+  obtain ⟨⟨c, t, e1, hc⟩, _⟩ := ha
+  obtain ⟨_, ⟨t', d, e2, hd⟩⟩ := hb
+  exact ⟨⟨c, t ++ x ++ b, by rw [e1]; simp, hc⟩, ⟨a ++ x ++ t', d, by rw [e2]; simp, hd⟩⟩
+
+theorem digits_noWs : (∀ c ∈ lowerDigits, isWhitespace c = false) ∧ (∀ c ∈ upperDigits, isWhitespace c = false) := by decide
+
+theorem numSp_noWs {r n : Nat} {s : Str} (hr : 2 ≤ r) (h : NumSp r n s) : NoWs s ∧ s ≠ [] := by
+  constructor
+  · intro c hc
+    rcases numSp_chars hr h c hc with rfl | h | h
+    · decide
+    · exact digits_noWs.1 c h
+    · exact digits_noWs.2 c h
+  · obtain ⟨plus, k, body, rfl, hb⟩ := h
+    intro h0
+    have : body = [] := by simp at h0; exact h0.2.2
+    subst this
+    simp at hb
+    exact showNat_ne_nil hr n (by simpa using hb.symm)
+
+theorem isdAsnSp_noWs {v : Nat} {s : Str} (h : IsdAsnSp v s) : NoWs s ∧ s ≠ [] := by
+  obtain ⟨i, a, si, sa, _, _, _, rfl, spi, spa⟩ := h
+  refine ⟨?_, by simp⟩
+  intro c hc
+  simp only [List.mem_append, List.mem_cons] at hc
+  rcases hc with hc | rfl | hc
+  · exact (numSp_noWs (by omega) spi).1 c hc
+  · decide
+  · rcases spa with ⟨_, hsp⟩ | ⟨a, b, c', sa, sb, sc, _, _, _, _, rfl, spa, spb, spc⟩
+    · exact (numSp_noWs (by omega) hsp).1 c hc
+    · simp only [List.mem_append, List.mem_cons] at hc
+      rcases hc with hc | rfl | hc | rfl | hc
+      · exact (numSp_noWs (by omega) spa).1 c hc
+      · decide
+      · exact (numSp_noWs (by omega) spb).1 c hc
+      · decide
+      · exact (numSp_noWs (by omega) spc).1 c hc
+
+theorem ipv6Alphabet_noWs : ∀ c ∈ ipv6Alphabet, isWhitespace c = false := by decide
+
+theorem ipHostSp_noWs {C : HostCodec} (hC : C.Lawful) {h : Host} {s : Str} (hs : HostSp C h s) (hip : ∀ v, h ≠ .svc v) :
+    NoWs s ∧ s ≠ [] ∧ parseIp C s = some h ∧ (∀ c ∈ s, c ∈ ipv6Alphabet) := by
+  cases h with
+  | svc v => exact absurd rfl (hip v)
+  | v4 a =>
+    have h4 : C.parse4 s = some a := hs
+    have hal : ∀ c ∈ s, c ∈ ipv6Alphabet := fun c hc => alpha4_sub c (hC.alpha4 _ _ h4 c hc)
+    refine ⟨fun c hc => ipv6Alphabet_noWs c (hal c hc), ?_, by simp [parseIp, h4], hal⟩
+    intro h0; subst h0; rw [hC.nonempty.1] at h4; cases h4
+  | v6 a =>
+    have h6 : C.parse6 s = some a := hs
+    have hal : ∀ c ∈ s, c ∈ ipv6Alphabet := hC.alpha6 _ _ h6
+    have h4 : C.parse4 s = none := by
+      cases hp : C.parse4 s with
+      | none => rfl
+      | some b => rw [hC.disjoint s b hp] at h6; cases h6
+    refine ⟨fun c hc => ipv6Alphabet_noWs c (hal c hc), ?_, by simp [parseIp, h4, h6], hal⟩
+    intro h0; subst h0; rw [hC.nonempty.2] at h6; cases h6
+
+theorem ws_not_mem {w : Str} (hw : Ws w) (c : Char) (hc : isWhitespace c = false) : c ∉ w := by
+  intro hm; rw [hw c hm] at hc; cases hc
+
+theorem txt_sep_facts : isWhitespace TXT_ENTRY_SEP = false ∧ isWhitespace TXT_CLOSE = false ∧ isWhitespace TXT_OPEN = false ∧
+    isWhitespace TXT_LIST_SEP = false ∧ TXT_CLOSE ∉ ipv6Alphabet ∧ TXT_CLOSE ≠ TXT_ENTRY_SEP ∧ TXT_ENTRY_SEP = ADDR_SEP ∧
+    TXT_CLOSE ≠ '+' ∧ TXT_CLOSE ∉ lowerDigits ∧ TXT_CLOSE ∉ upperDigits ∧ TXT_CLOSE ≠ IA_SEP ∧ TXT_CLOSE ≠ ASN_SEP := by decide
+
+theorem close_not_in_iaSp {v : Nat} {s : Str} (h : IsdAsnSp v s) : TXT_CLOSE ∉ s := by
+  obtain ⟨_, _, _, _, _, _, _, h1, h2, h3, h4, h5⟩ := txt_sep_facts
+  obtain ⟨i, a, si, sa, _, _, _, rfl, spi, spa⟩ := h
+  simp only [List.mem_append, List.mem_cons, not_or]
+  refine ⟨sep_not_in_numSp (by omega) spi _ h1 h2 h3, h4, ?_⟩
+  rcases spa with ⟨_, hsp⟩ | ⟨a, b, c, sa, sb, sc, _, _, _, _, rfl, spa, spb, spc⟩
+  · exact sep_not_in_numSp (by omega) hsp _ h1 h2 h3
+  · simp only [List.mem_append, List.mem_cons, not_or]
+    exact ⟨sep_not_in_numSp (by omega) spa _ h1 h2 h3, h5, sep_not_in_numSp (by omega) spb _ h1 h2 h3, h5,
+      sep_not_in_numSp (by omega) spc _ h1 h2 h3⟩
+
+/-- one iteration of the loop on a spelled entry followed by `tail` -/
+theorem parseTxtLoop_entry {C : HostCodec} (hC : C.Lawful) {a : ScionAddr} {e : Str} (he : TxtEntrySp C a e)
+    (ha : a.Valid) (hip : a.IsIp) (tail : Str) (fuel : Nat) :
+    parseTxtLoop C (fuel + 1) (e ++ tail) =
+      if (trim tail).isEmpty then .ok [a]
+      else if !startsWith TXT_LIST_SEP (trim tail) then .err
+      else if (trim ((trim tail).drop 1)).isEmpty then .err
+      else match parseTxtLoop C fuel (trim ((trim tail).drop 1)) with
+        | .ok more => .ok (a :: more)
+        | .err => .err
+        | .panic => .panic := by
+  obtain ⟨ia, h⟩ := a
+  obtain ⟨w1, sia, w2, w3, sh, w4, hw1, hw2, hw3, hw4, rfl, spia, sph⟩ := he
+  simp only at spia sph
+  obtain ⟨wsE, wsC, wsO, _, cAlpha, cNe, eSep, _⟩ := txt_sep_facts
+  obtain ⟨nwia, neia⟩ := isdAsnSp_noWs spia
+  obtain ⟨nwh, neh, hpip, halh⟩ := ipHostSp_noWs hC sph hip
+  -- the text between the brackets
+  let inner := w1 ++ sia ++ w2 ++ TXT_ENTRY_SEP :: (w3 ++ sh ++ w4)
+  have hclose : TXT_CLOSE ∉ TXT_OPEN :: inner := by
+    simp only [inner, List.mem_cons, List.mem_append, not_or]
+    exact ⟨txt_consts.1.symm, ⟨⟨ws_not_mem hw1 _ wsC, close_not_in_iaSp spia⟩, ws_not_mem hw2 _ wsC⟩, cNe,
+      ⟨ws_not_mem hw3 _ wsC, fun hm => cAlpha (halh _ hm)⟩, ws_not_mem hw4 _ wsC⟩
+  have hshape : TXT_OPEN :: (w1 ++ sia ++ w2 ++ TXT_ENTRY_SEP :: (w3 ++ sh ++ w4 ++ [TXT_CLOSE])) ++ tail =
+      (TXT_OPEN :: inner) ++ TXT_CLOSE :: tail := by simp [inner]
+  rw [hshape]
+  conv => lhs; unfold parseTxtLoop
+  have hsw : startsWith TXT_OPEN ((TXT_OPEN :: inner) ++ TXT_CLOSE :: tail) = true := by simp [startsWith]
+  rw [hsw]
+  simp only [Bool.not_true, Bool.false_eq_true, if_false]
+  rw [find_append hclose]
+  simp only
+  rw [if_neg (by simp)]
+  have htake : (((TXT_OPEN :: inner) ++ TXT_CLOSE :: tail).take (TXT_OPEN :: inner).length).drop 1 = inner := by
+    rw [List.take_left']
+    · rfl
+    · rfl
+  have hdrop : ((TXT_OPEN :: inner) ++ TXT_CLOSE :: tail).drop ((TXT_OPEN :: inner).length + 1) = tail := by
+    have : (TXT_OPEN :: inner) ++ TXT_CLOSE :: tail = ((TXT_OPEN :: inner) ++ [TXT_CLOSE]) ++ tail := by simp
+    rw [this]
+    exact List.drop_left' (by simp)
+  rw [htake, hdrop]
+  -- trimming the entry
+  have tia : Tight sia := tight_of_noWs nwia neia
+  have th : Tight sh := tight_of_noWs nwh neh
+  have hinner : inner = w1 ++ (sia ++ (w2 ++ TXT_ENTRY_SEP :: w3) ++ sh) ++ w4 := by simp [inner]
+  have htrim : trim inner = sia ++ (w2 ++ TXT_ENTRY_SEP :: w3) ++ sh := by
+    rw [hinner]; exact trim_tight hw1 hw4 (tight_sandwich _ tia th)
+  have hsepia : TXT_ENTRY_SEP ∉ sia ++ w2 := by
+    simp only [List.mem_append, not_or]
+    exact ⟨by rw [eSep]; exact addr_sep_not_in_iaSp spia, ws_not_mem hw2 _ wsE⟩
+  have hsplit : splitOnce TXT_ENTRY_SEP (sia ++ (w2 ++ TXT_ENTRY_SEP :: w3) ++ sh) = some (sia ++ w2, w3 ++ sh) := by
+    have : sia ++ (w2 ++ TXT_ENTRY_SEP :: w3) ++ sh = (sia ++ w2) ++ TXT_ENTRY_SEP :: (w3 ++ sh) := by simp
+    rw [this, splitOnce_append hsepia]
+  rw [htrim, hsplit]
+  simp only
+  have t1 : trim (sia ++ w2) = sia := by
+    have := trim_tight (w1 := []) Ws.nil hw2 tia; simpa using this
+  have t2 : trim (w3 ++ sh) = sh := by
+    have := trim_tight (w2 := []) hw3 Ws.nil th; simpa using this
+  rw [t1, t2, (isdAsn_accepts_iff sia ia).mpr ⟨spia, ha.1⟩, hpip]
+  simp only
+  split
+  · rfl
+  · split
+    · rfl
+    · split
+      · rfl
+      · cases parseTxtLoop C fuel (trim (List.drop 1 (trim tail))) <;> rfl
+
+theorem txtEntrySp_tight {C : HostCodec} {a : ScionAddr} {e : Str} (he : TxtEntrySp C a e) : Tight e := by
+  obtain ⟨w1, sia, w2, w3, sh, w4, _, _, _, _, rfl, _, _⟩ := he
+  obtain ⟨_, wsC, wsO, _⟩ := txt_sep_facts
+  refine ⟨⟨TXT_OPEN, _, rfl, wsO⟩, ⟨TXT_OPEN :: (w1 ++ sia ++ w2 ++ TXT_ENTRY_SEP :: (w3 ++ sh ++ w4)), TXT_CLOSE, by simp, wsC⟩⟩
+
+theorem txtListSp_tight {C : HostCodec} {l : List ScionAddr} {body : Str} (h : TxtListSp C l body) : Tight body := by
+  induction h with
+  | one he => exact txtEntrySp_tight he
+  | @cons a e l rest w1 w2 he _ _ _ ih =>
+    have := tight_sandwich (w1 ++ TXT_LIST_SEP :: w2) (txtEntrySp_tight he) ih
+    simpa using this
+
+theorem parseTxtLoop_spelled {C : HostCodec} (hC : C.Lawful) {l : List ScionAddr} {body : Str} (h : TxtListSp C l body) :
+    (∀ a ∈ l, a.Valid ∧ a.IsIp) → ∀ (w : Str), Ws w → ∀ fuel, l.length ≤ fuel → parseTxtLoop C fuel (body ++ w) = .ok l := by
+  induction h with
+  | @one a e he =>
+    intro hv w hw fuel hf
+    cases fuel with
+    | zero => simp at hf
+    | succ fuel =>
+      rw [parseTxtLoop_entry hC he (hv a (by simp)).1 (hv a (by simp)).2, trim_ws_only hw]
+      simp
+  | @cons a e l rest w1 w2 he hw1 hw2 hrest ih =>
+    intro hv w hw fuel hf
+    cases fuel with
+    | zero => simp at hf
+    | succ fuel =>
+      obtain ⟨_, _, _, wsL, _⟩ := txt_sep_facts
+      have hv' : ∀ x ∈ l, x.Valid ∧ x.IsIp := fun x hx => hv x (List.mem_cons_of_mem _ hx)
+      have trest := txtListSp_tight hrest
+      have e1 : e ++ w1 ++ TXT_LIST_SEP :: (w2 ++ rest) ++ w = e ++ (w1 ++ (TXT_LIST_SEP :: (w2 ++ rest)) ++ w) := by simp
+      rw [e1, parseTxtLoop_entry hC he (hv a (by simp)).1 (hv a (by simp)).2]
+      have tt : Tight (TXT_LIST_SEP :: (w2 ++ rest)) := by
+        obtain ⟨_, ⟨t', d, e2, hd⟩⟩ := trest
+        exact ⟨⟨TXT_LIST_SEP, _, rfl, wsL⟩, ⟨TXT_LIST_SEP :: (w2 ++ t'), d, by rw [e2]; simp, hd⟩⟩
+      rw [trim_tight hw1 hw tt]
+      simp only [List.isEmpty_cons, Bool.false_eq_true, if_false, startsWith, beq_self_eq_true, Bool.not_true,
+        List.drop_succ_cons, List.drop_zero]
+      have t3 : trim (w2 ++ rest) = rest := by
+        have := trim_tight (w2 := []) hw2 Ws.nil trest; simpa using this
+      rw [t3]
+      have hne : rest ≠ [] := by
+        obtain ⟨⟨c, t, e, _⟩, _⟩ := trest; rw [e]; simp
+      have := ih hv' [] Ws.nil fuel (by simp at hf; omega)
+      simp only [List.append_nil] at this
+      rw [this]
+      cases hr : rest with
+      | nil => exact absurd hr hne
+      | cons x xs => simp
+
+/-- **accepted TXT payloads are exactly the record grammar** (`txt_grammar` of DESIGN §5 C15) -/
+theorem txt_accepts_iff (C : HostCodec) (hC : C.Lawful) (s : Str) (l : List ScionAddr) :
+    parseTxt C s = .ok l ↔ TxtSp C l s ∧ l ≠ [] ∧ ∀ a ∈ l, a.Valid ∧ a.IsIp := by
+  refine ⟨txt_accept_only_spellings C hC s l, ?_⟩
+  rintro ⟨⟨w1, body, w2, hw1, hw2, rfl, hsp⟩, _, hv⟩
+  have tb := txtListSp_tight hsp
+  unfold parseTxt
+  simp only [trim_tight hw1 hw2 tb]
+  have hne : body ≠ [] := by obtain ⟨⟨c, t, e, _⟩, _⟩ := tb; rw [e]; simp
+  cases hb : body with
+  | nil => exact absurd hb hne
+  | cons x xs =>
+    simp only [List.isEmpty_cons, Bool.false_eq_true, if_false]
+    rw [← hb]
+    have := parseTxtLoop_spelled hC hsp hv [] Ws.nil (body.length + 1) ?_
+    · simpa using this
+    · -- at least one character per entry
+      have : ∀ {l : List ScionAddr} {b : Str}, TxtListSp C l b → l.length ≤ b.length := by
+        intro l b h
+        induction h with
+        | one he => obtain ⟨_, _, _, _, _, _, _, _, _, _, rfl, _, _⟩ := he; simp
+        | cons he _ _ _ ih => obtain ⟨_, _, _, _, _, _, _, _, _, _, rfl, _, _⟩ := he; simp at ih ⊢; omega
+      have := this hsp
+      omega
+
 /-! ## the hypotheses on the IP codec are satisfiable (non-vacuity of every theorem that takes `C.Lawful`)
 
 A deliberately simple codec – `"." decimal` for IPv4 values, `":" hex` for IPv6 values – is lawful.  (That *std's*
@@ -1568,6 +1842,7 @@ theorem toyCodec_lawful : toyCodec.Lawful where
       · cases h
     · cases h
   colon6 a _ := by simp [toyCodec]
+  nonempty := by simp [toyCodec]
   disjoint s a h := by
     simp only [toyCodec] at h ⊢
     split at h
